@@ -298,6 +298,7 @@ ADDED = {
  "C07": " Added since: code-level models of both extrapolated smoothers (C07c, C07g); repeated sweeps of one object with the same work vector; stage through the solver object.",
  "C08": " Added since: long-lived Interpolation objects over same-shape pairs with different coordinates; adjointness and convexity on the pairs of the built hierarchy (C08b).",
  "C12": " Added since: structured vectors for the kernels at six thread counts; two-cycle solves under four thread-share factors (1e-9).",
+ "C13": " Added since: C13c — over the code-level models the start-up and every cycle read nothing an earlier solve could have left behind; setter / refinement-loop / delta histories against fresh objects.",
  "C14": " Added since: sparse right-hand sides (unit vectors, zero head / tail); slot re-assignment and move-on histories of solver objects.",
  "C15": " Added since: a solve that no longer returns the solution after a history of copies / moves is reported with the history as the failing input.",
  "C16": " Added since: sparse right-hand sides; large strictly diagonally dominant systems; solver object histories; NDEBUG search and crash probe when the harness dies.",
